@@ -38,6 +38,10 @@ class ContinueEx(Exception):
     pass
 
 
+# exception classes of dependencies under the name the stubs raise them by
+EXC_ALIASES = {'regex.error': 'RegexError', 'regex.regex.error': 'RegexError', 'regex._regex_core.error': 'RegexError'}
+
+
 class LazyGen:
     """a generator expression whose element or condition has effects: nothing of it runs before it is consumed"""
 
@@ -854,7 +858,7 @@ class Exec:
         raise PyRaise(cls, 'explicit@%d' % st.lineno)
 
     def exc_class_id(self, target):
-        name = target.name.split('.')[-1]
+        name = EXC_ALIASES.get(target.name, target.name.split('.')[-1])
         if name in L.EXC_ID:
             return L.EXC_ID[name]
         # an exception class the hierarchy does not know: cannot be shown to be an Exception
@@ -923,7 +927,7 @@ class Exec:
         for x in (t if isinstance(t, tuple) else (t,)):
             if not isinstance(x, St):
                 raise Unsupported('except with dynamic class')
-            names.append(x.name.split('.')[-1])
+            names.append(EXC_ALIASES.get(x.name, x.name.split('.')[-1]))
         conds = []
         for n in names:
             if n not in L.EXC_ID:
